@@ -1,6 +1,6 @@
 import AL.Lemmas.SemaMonoOps
 /-
-  C06 (e), (g): the checker is monotone in the context types (for `LooserD`, in well-formed
+  C06 (e), (g): the checker is monotone in the context types (for `Looser`/`LooserD`, in well-formed
   environments with `SameRet`), and its event stream does not depend on the context types at all.
   All three by the functional induction principle of `check`/`narrow`/`checkArgs`.
 -/
@@ -236,11 +236,20 @@ theorem check_mono_all (Γ : Env) (vs : List (String × Ty)) (hΓ : WfEnv Γ) (h
     obtain ⟨ihr1, ihr2⟩ := ihr he2
     exact ⟨by rw [iha1, ihr1]; rfl, .cons iha2 ihr2⟩
 
-/-- C06 (e'): monotonicity of the checker for `LooserD`. -/
+/-- C06 (e'): monotonicity of the checker for `LooserD` (context types may even differ in `deref` flags). -/
 theorem check_mono {Γ Γ' : Env} (e : E) (h : LooserEnvD Γ Γ') (hΓ : WfEnv Γ) (hsame : SameRet Γ.funcs)
     (he : (check Γ e).errs = []) : (check Γ' e).errs = [] ∧ LooserD (check Γ e).ty (check Γ' e).ty := by
   rw [h.eq_setVars]
   exact (check_mono_all Γ Γ'.vars hΓ h.vars hsame).1 e he
+
+theorem LooserEnvD.of_looserEnv {Γ Γ' : Env} (h : LooserEnv Γ Γ') : LooserEnvD Γ Γ' :=
+  ⟨LooserDProps.of_looser h.vars, h.funcs, h.specialFuncs, h.availCtx, h.availSpecial, h.configVars, h.lower,
+   h.fromJson⟩
+
+/-- C06 (e) at full strength: with the ORIGINAL environment relation `LooserEnv`. -/
+theorem check_mono_full {Γ Γ' : Env} (e : E) (h : LooserEnv Γ Γ') (hΓ : WfEnv Γ) (hsame : SameRet Γ.funcs)
+    (he : (check Γ e).errs = []) : (check Γ' e).errs = [] ∧ LooserD (check Γ e).ty (check Γ' e).ty :=
+  check_mono e (LooserEnvD.of_looserEnv h) hΓ hsame he
 
 /-! ### events -/
 
